@@ -31,6 +31,9 @@ def summarize(ctx, items, results):
             "de-duplication setting, two queries over ALL argument values: (i) the circuit's panic flag differs from the reference's "
             "'some operation fails on the executed path' -- unsat; (ii) both panic but the circuit's 160-bit (reason, start line/col, "
             "end line/col) record differs from that of the FIRST failing operation in evaluation order -- unsat. "
+            "Besides the seeded profiles (panic, general, mutation) the pool holds the profile `assignorder` (nested arrays assigned through "
+            "input-dependent indices whose later index expressions and values can fail themselves or assign to an earlier index variable) and 14 fixed "
+            "templates around arrays of length 0 (reads, writes, loops next to another operation that can fail). "
             "disagreements_checked = solver queries discharged.")
     return common.summarize_tv(ctx, items, results, "C02", what, common.BASE_ASSUMPTIONS + [
         "source locations: span of an operation = first char of its left-most operand .. after the last char of its right-most operand (0-based, outer parentheses excluded), computed by the generator's printer; for a field access the front end reports the field identifier only and the printer mirrors that",
